@@ -54,3 +54,20 @@ def c05_eval_alias(v, spec):
     if v['kind'] != 'result-aliases-input:eval':
         return False
     return all('mask changed' in d for d in v.get('diffs', ['x']))
+
+
+@pred('C06-mask-values-integer')
+def c06_mask_values_int(v, spec):
+    # mask(values=x) delegates to numpy.ma.masked_values, which for INTEGER
+    # arrays and a non-integral x fills previously masked cells with int(x),
+    # finds nothing equal to x and returns mask=False: cells masked before
+    # (in the input or by an earlier predicate of the same call) come back
+    # unmasked holding int(x).
+    if v['kind'] != 'wrong-mask':
+        return False
+    kw = v.get('kw', {})
+    if 'values' not in kw or float(kw['values']) == int(kw['values']):
+        return False
+    bad = v.get('badvars', [])
+    import numpy as np
+    return bool(bad) and all(np.dtype(dt).kind in 'iu' for _, dt, _ in bad)
